@@ -58,17 +58,33 @@ def process_calls(pr):
     return out
 
 
+def _enclosing(mod, node):
+    best = None
+    for f in ast.walk(mod.tree):
+        if isinstance(f, ast.FunctionDef) and any(x is node for x in ast.walk(f)):
+            if best is None or f.lineno > best.lineno:
+                best = f
+    return best
+
+
 def dynamic_imports(pr):
     out = []
     for m in A.all_modules(pr.tree):
         for c in A.calls(m):
             if A.dotted(c.func) in ("import_module", "importlib.import_module"):
                 a = c.args[0] if c.args else None
+                f = _enclosing(m, c)
                 ok = False
                 if isinstance(a, ast.JoinedStr) and a.values and isinstance(a.values[0], ast.FormattedValue):
-                    ok = A.dotted(a.values[0].value) in ("_ACCOUNTING_METHOD_PACKAGE", "REPORT_GENERATOR_PACKAGE", "package_path", "plugin_name")
-                elif isinstance(a, ast.Name):
-                    ok = a.id in ("package_path", "plugin_name", "_ACCOUNTING_METHOD_PACKAGE")        # names produced from the two rp2 package constants / iter_modules over such a package
+                    ok = A.dotted(a.values[0].value) in ("_ACCOUNTING_METHOD_PACKAGE", "REPORT_GENERATOR_PACKAGE")
+                elif isinstance(a, ast.Name) and a.id == "_ACCOUNTING_METHOD_PACKAGE":
+                    ok = True
+                elif isinstance(a, ast.Name) and f is not None:
+                    # a name bound by `for <name> in package_paths` (the two rp2 report packages) or by iter_modules() over such a package
+                    for lp in [n for n in ast.walk(f) if isinstance(n, ast.For)]:
+                        names = [x.id for x in ast.walk(lp.target) if isinstance(x, ast.Name)]
+                        if a.id in names and (ast.unparse(lp.iter) == "package_paths" or A.dotted(lp.iter.func if isinstance(lp.iter, ast.Call) else lp.iter) == "iter_modules"):
+                            ok = True
                 out.append(A.bvc(f"{m.name}/<module>", "effect", "dynamic_import_stays_inside_rp2_plugins", ok, f"{m.relpath}:{c.lineno}", ast.unparse(c)[:200]))
     # the constants themselves
     for mname, const, want in (("rp2.rp2_main", "_ACCOUNTING_METHOD_PACKAGE", "rp2.plugin.accounting_method"), ("rp2.configuration", "REPORT_GENERATOR_PACKAGE", "rp2.plugin.report")):
@@ -76,11 +92,24 @@ def dynamic_imports(pr):
         v = m.assigns.get(const) if m else None
         ok = isinstance(v, ast.Constant) and v.value == want
         out.append(A.bvc(f"{mname}/<module>", "effect", f"{const}_is_{want}", ok, m.relpath if m else mname))
+    MI = A.Fn(pr.tree, "rp2.rp2_main._rp2_main_internal")
+    out.append(A.bvc(MI.qual, "effect", "report_package_paths_are_the_rp2_report_package_and_its_country_subpackage",
+                     MI.expr("package_paths=[REPORT_GENERATOR_PACKAGE, f'{REPORT_GENERATOR_PACKAGE}.{country.country_iso_code}']"), "src/rp2/rp2_main.py"))
     return out
 
 
+def _provenance(mod, call, receiver: ast.AST):
+    """(enclosing function, the statement that binds the receiver name in it) for a Name receiver with exactly one binding."""
+    f = _enclosing(mod, call)
+    if f is None or not isinstance(receiver, ast.Name):
+        return f, None
+    binds = [st for st in ast.walk(f) if isinstance(st, (ast.Assign, ast.AnnAssign)) and
+             any(isinstance(t, ast.Name) and t.id == receiver.id for t in (st.targets if isinstance(st, ast.Assign) else [st.target])) and getattr(st, "value", None) is not None]
+    return f, (binds[0] if len(binds) == 1 else None)
+
+
 def write_frame(pr):
-    """Every write site, and where its path comes from."""
+    """Every write site, and where its path comes from (the binding of the receiver inside the enclosing function, not its name)."""
     out = []
     sites = []
     for m in A.all_modules(pr.tree):
@@ -100,45 +129,48 @@ def write_frame(pr):
                 if mode is not None and any(ch in str(mode) for ch in "wax+?"):
                     sites.append((m, c, "open-for-write"))
             elif isinstance(c.func, ast.Attribute) and c.func.attr in WRITE_ATTRS:
-                if c.func.attr == "remove" and ast.unparse(c.func.value) == "generators":      # set.remove on the local copy of the generator names
-                    continue
+                if c.func.attr == "remove":
+                    _, b = _provenance(m, c, c.func.value)
+                    if b is not None and ast.unparse(b.value).endswith(".generators.copy()"):       # set.remove on the local copy of the generator names
+                        continue
                 sites.append((m, c, c.func.attr))
             elif d.endswith("FileHandler"):
                 sites.append((m, c, "FileHandler"))
-    ok_sites = {
-        ("rp2.logger", "mkdir"): lambda c: ast.unparse(c.func.value) == "Path('./log')",
-        ("rp2.logger", "FileHandler"): lambda c: ast.unparse(c.args[0]) == "LOG_FILE",
-        ("rp2.rp2_main", "mkdir"): lambda c: ast.unparse(c.func.value) == "output_dir_path",
-        ("rp2.plugin.report.abstract_ods_generator", "unlink"): lambda c: ast.unparse(c.func.value) == "output_file_path",
-    }
     for m, c, what in sites:
-        key = (m.name, what)
+        recv = c.func.value if isinstance(c.func, ast.Attribute) else None
+        f, b = _provenance(m, c, recv) if recv is not None else (None, None)
+        bound = ast.unparse(b.value) if b is not None else ""
         if what == "save":
-            ok = ast.unparse(c.func.value) == "output_file" and m.name.startswith("rp2.plugin.report.")
-        elif key in ok_sites:
-            ok = ok_sites[key](c)
+            ok = m.name.startswith("rp2.plugin.report.") and bound.startswith("self._initialize_output_file(")
+        elif (m.name, what) == ("rp2.logger", "mkdir"):
+            ok = ast.unparse(recv) == "Path('./log')"
+        elif (m.name, what) == ("rp2.logger", "FileHandler"):
+            ok = ast.unparse(c.args[0]) == "LOG_FILE"
+        elif (m.name, what) == ("rp2.rp2_main", "mkdir"):
+            ok = f is not None and f.name == "_setup_paths" and b is not None and len(f.args.args) == 4 and bound == f"Path({f.args.args[3].arg})"
+        elif (m.name, what) == ("rp2.plugin.report.abstract_ods_generator", "unlink"):
+            ok = f is not None and f.name == "_initialize_output_file" and A.has(f, "output_file_path = Path(output_dir_path) / Path(f'{output_file_prefix}{accounting_method}_{output_file_name}')\n"
+                                                                                   "if Path(output_file_path).exists():\n    output_file_path.unlink()", m.tree)
         else:
             ok = False
-        out.append(A.bvc(f"{m.name}/<module>", "frame", f"write_site_{what}_is_confined", ok, f"{m.relpath}:{c.lineno}", ast.unparse(c)[:160]))
+        out.append(A.bvc(f"{m.name}/<module>", "frame", f"write_site_{what}_is_confined", bool(ok), f"{m.relpath}:{c.lineno}", ast.unparse(c)[:160] + (f"  [{bound[:80]}]" if bound else "")))
     # provenance of the three path roots
     lg = pr.tree.modules["rp2.logger"]
     v = lg.assigns.get("LOG_FILE")
     ok = isinstance(v, ast.JoinedStr) and isinstance(v.values[0], ast.Constant) and str(v.values[0].value).startswith("./log/")
     out.append(A.bvc("rp2.logger/<module>", "frame", "log_file_is_under_dot_log", ok, lg.relpath))
-    g = A.func_node(pr.tree, "rp2.plugin.report.abstract_ods_generator.AbstractODSGenerator._initialize_output_file")
-    src = ast.unparse(g) if g else ""
-    out.append(A.bvc("rp2.plugin.report.abstract_ods_generator.AbstractODSGenerator._initialize_output_file", "frame", "output_path_is_output_dir_slash_prefixed_name",
-                     "output_file_path: Path = Path(output_dir_path) / Path(f'{output_file_prefix}{accounting_method}_{output_file_name}')" in src and
-                     "ezodf.newdoc('ods', str(output_file_path), template=template_path)" in src, "src/rp2/plugin/report/abstract_ods_generator.py", src[:0]))
+    IO = A.Fn(pr.tree, "rp2.plugin.report.abstract_ods_generator.AbstractODSGenerator._initialize_output_file")
+    out.append(A.bvc(IO.qual, "frame", "output_path_is_output_dir_slash_prefixed_name",
+                     IO.has("output_file_path = Path(output_dir_path) / Path(f'{output_file_prefix}{accounting_method}_{output_file_name}')") and
+                     IO.has("output_file = ezodf.newdoc('ods', str(output_file_path), template=template_path)") and IO.has("return output_file") and
+                     IO and [a.arg for a in IO.node.args.args][:5] == ["cls", "country", "legend_data", "years_2_accounting_method_names", IO.scope.env.get("output_dir_path", "output_dir_path")],
+                     "src/rp2/plugin/report/abstract_ods_generator.py"))
     mm = pr.tree.modules["rp2.rp2_main"]
-    sp = A.func_node(pr.tree, "rp2.rp2_main._setup_paths")
-    out.append(A.bvc("rp2.rp2_main._setup_paths", "frame", "output_dir_path_is_the_output_dir_option", sp is not None and "output_dir_path: Path = Path(output_dir)" in ast.unparse(sp), mm.relpath))
-    mi = A.func_node(pr.tree, "rp2.rp2_main._rp2_main_internal")
-    msrc = ast.unparse(mi) if mi else ""
-    out.append(A.bvc("rp2.rp2_main._rp2_main_internal", "effect", "report_package_paths_are_the_rp2_report_package_and_its_country_subpackage",
-                     "package_paths=[REPORT_GENERATOR_PACKAGE, f'{REPORT_GENERATOR_PACKAGE}.{country.country_iso_code}']" in msrc, mm.relpath))
-    out.append(A.bvc("rp2.rp2_main._rp2_main_internal", "frame", "generators_receive_the_output_dir_option",
-                     "output_dir_path=args.output_dir" in ast.unparse(A.func_node(pr.tree, "rp2.rp2_main._find_and_run_report_generators") or ast.parse("0")) or "output_dir_path=args.output_dir" in msrc, mm.relpath))
+    SP = A.Fn(pr.tree, "rp2.rp2_main._setup_paths")
+    out.append(A.bvc(SP.qual, "frame", "output_dir_path_is_the_output_dir_option", SP.has("output_dir_path = Path(output_dir)\nif not output_dir_path.exists():\n    output_dir_path.mkdir(parents=True)") and
+                     A.Fn(pr.tree, "rp2.rp2_main._rp2_main_internal").expr("output_dir=args.output_dir"), mm.relpath))
+    FR = A.Fn(pr.tree, "rp2.rp2_main._find_and_run_report_generators")
+    out.append(A.bvc(FR.qual, "frame", "generators_receive_the_output_dir_option", FR.expr("output_dir_path=args.output_dir"), mm.relpath))
     out.append(A.bvc("tree:write_sites", "frame", "write_sites_enumerated", len(sites) >= 8, "src/rp2", f"{len(sites)} write sites"))
     return out
 
